@@ -37,9 +37,18 @@
 //! (the realistic RepartitionExec shape) instead of "one sender per actor"; `TrySend`/`Try` model
 //! future cancellation; the exhaustive sub-run bounds forced-choice deviations as well as preemptions.
 //!
-//! **Sensitivity probes** (mkpatch + mutrun, `./check C15 quick`): see the bottom of this header
-//! (filled in after running them).
-//! PROBES-PLACEHOLDER
+//! **Sensitivity probes** (patches in `vf-chan/probes/`, run with `tools/mutrun <patch> -- ./check C15 quick`;
+//! log: `probes/probes.log`):
+//! * `c15-p1-rxdrop-no-wake` — `DistributionReceiver::drop` no longer calls `wake_channel_senders`:
+//!   **VIOLATION** after 71 cases (logical deadlock: a sender parked on the gate is never told that its
+//!   receiver is gone).
+//! * `c15-p2-txdrop-double-decr` — last-sender drop decrements `empty_channels` also when `data` is
+//!   `None`: **VIOLATION** after 172 cases (deadlock: gate closed while an open channel is empty).
+//! * `c15-p3-send-register-on-open-gate` (race-only: `SendFuture::poll` registers its waker even if the
+//!   gate was opened between the `empty_channels` load and the gate lock):
+//!   **VIOLATION** after 521 cases (deadlock, reconfirmed) — needs a preemption between the atomic load and the gate lock.
+//! * prepared but not run for lack of machine time (patch files present): `c15-p4-recv-no-recheck` (expected to
+//!   be invisible to this property: it only lets the buffer grow), `c15-p5-push-front` (order).
 
 use datafusion_physical_plan::repartition::verif_hooks::{DistributionReceiver, DistributionSender, channels, partition_aware_channels};
 use proptest::prelude::*;
